@@ -15,6 +15,7 @@ mod scen_core;
 mod scen_cq;
 mod scen_io;
 mod scen_probe;
+mod scen_race;
 mod scen_sync;
 mod util;
 
@@ -46,6 +47,7 @@ fn registry() -> Vec<ScenDef> {
     v.extend(scen_cq::defs());
     v.extend(scen_io::defs());
     v.extend(scen_probe::defs());
+    v.extend(scen_race::defs());
     v
 }
 
@@ -194,7 +196,9 @@ fn run_one(def: &ScenDef, seed: u64, plan: &[PlanEntry], a: &Args) -> Outcome {
     let events = x.log.len();
     let mut res = res;
     if res.is_ok() {
-        x.finish();
+        res = x.finish();
+    }
+    if res.is_ok() {
         if hook::RESIDENCY_VIOLATIONS.load(SeqCst) != 0 {
             let w = hook::RESIDENCY_WITNESS.lock().unwrap().clone().unwrap_or_default();
             res = Err(Fail::Violation(format!("residency monitor: {}", w)));
@@ -362,6 +366,9 @@ fn main() {
         }
     } else {
         'outer: for seed_i in a.skip_seed..a.nseeds {
+            if st.execs >= a.max_execs || st.wall.elapsed() > budget {
+                break 'outer;
+            }
             let sseed = Rng::new(a.seed ^ (seed_i.wrapping_mul(0x2545F4914F6CDD1D)) ^ ((a.workers as u64) << 56)).next() >> 1;
             // plan 0: dry run
             let mut plans: Vec<Vec<PlanEntry>> = vec![vec![]];
